@@ -2,6 +2,8 @@ package drive
 
 import (
 	"fmt"
+	"hash/fnv"
+	"os"
 
 	jd1 "github.com/josephburnett/jd/lib"
 
@@ -29,6 +31,23 @@ func (v *V1) Inject(n codec.Node, yaml bool) (jd1.JsonNode, error) {
 	}
 	if yaml {
 		return jd1.ReadYamlString(v.T.Text(n))
+	}
+	// the same choice of entry points as for v2 (V2.enter)
+	h := fnv.New32a()
+	h.Write([]byte(v.T.Text(n)))
+	switch h.Sum32() / 7 % 8 {
+	case 6:
+		if r, ok := v.T.Raw(n); ok {
+			return jd1.NewJsonNode(goValue(r))
+		}
+	case 7:
+		f, err := os.CreateTemp("", "jdv-doc1-*.json")
+		if err == nil {
+			defer os.Remove(f.Name())
+			f.WriteString(v.T.Spell(n, false))
+			f.Close()
+			return jd1.ReadJsonFile(f.Name())
+		}
 	}
 	return jd1.ReadJsonString(v.T.Spell(n, false))
 }
